@@ -275,4 +275,104 @@ theorem jsonNumText_grammar_int (cfg : Config) (npl : Nat) (d : Dec) (hs : d.sca
       · simpa using hj
       · simpa [isJsonNumber_neg c r hc] using hj
 
+theorem dropWhile_all_digits (r : List Char) (hr : ∀ x ∈ r, isDigit x = true) : r.dropWhile isDigit = [] := by
+  induction r with
+  | nil => rfl
+  | cons a r ih =>
+    have ha := hr a (by simp)
+    simp only [List.dropWhile_cons, ha, if_true]
+    exact ih (fun x hx => hr x (by simp [hx]))
+
+/-- integer part, a point and at least one fraction digit -/
+theorem isJsonNumber_frac (c : Char) (ri : List Char) (f : Char) (fr : List Char)
+    (hc : isDigit c = true) (hri : ∀ x ∈ ri, isDigit x = true) (hz : c = '0' → ri = [])
+    (hf : isDigit f = true) (hfr : ∀ x ∈ fr, isDigit x = true) :
+    isJsonNumber (c :: (ri ++ '.' :: f :: fr)) = true := by
+  have hcm := isDigit_ne_minus c hc
+  have hdot : isDigit '.' = false := by decide
+  have hd := dropWhile_digits ri (f :: fr) '.' hri hdot
+  have hdf := dropWhile_all_digits fr hfr
+  by_cases h0 : c = '0'
+  · have := hz h0; subst this; subst h0
+    unfold isJsonNumber; simp [hf, hdf]
+  · unfold isJsonNumber; simp [hcm, h0, hc, hd, hf, hdf]
+
+/-- the plain layout with a decimal point (scale > 0, no precision) -/
+theorem fullScaleText_frac_grammar (cfg : Config) (npl : Nat) (neg : Bool) (n : Nat) (scale : Int) (hs : 0 < scale) :
+    ∃ c r, fullScaleText cfg npl neg n scale none = c :: r ∧ isDigit c = true ∧ isJsonNumber (c :: r) = true := by
+  unfold fullScaleText
+  have hs' : ¬ scale ≤ 0 := by omega
+  simp only [hs', if_false, Option.getD_none]
+  obtain ⟨sc, hsc⟩ : ∃ sc : Nat, scale.toNat = sc := ⟨_, rfl⟩
+  have hscpos : 0 < sc := by omega
+  rw [hsc]
+  by_cases hlt : sc < (natStr n).length
+  · rw [if_pos hlt]
+    unfold fmtIntFrac
+    have hn0 : n ≠ 0 := by
+      intro e; subst e; simp [natStr] at hlt; omega
+    obtain ⟨c, r, hn, hc, hr, hc0⟩ := natStr_head_ne_zero n hn0
+    rw [hn] at hlt ⊢
+    simp only [List.length_cons] at hlt
+    simp only [Nat.lt_irrefl, if_false, List.length_cons, ne_eq, Nat.pos_iff_ne_zero.mp hscpos, not_false_eq_true, if_true]
+    have hk : r.length + 1 - sc = (r.length - sc) + 1 := by omega
+    rw [hk, List.take_succ_cons, List.drop_succ_cons]
+    have hdne : r.drop (r.length - sc) ≠ [] := by
+      intro e
+      have := congrArg List.length e
+      simp at this; omega
+    obtain ⟨f, fr, hfe⟩ := List.exists_cons_of_ne_nil hdne
+    refine ⟨c, r.take (r.length - sc) ++ '.' :: r.drop (r.length - sc), by simp, hc, ?_⟩
+    rw [hfe]
+    have hmem : ∀ x ∈ f :: fr, isDigit x = true := by
+      intro x hx; rw [← hfe] at hx; exact hr x (List.mem_of_mem_drop hx)
+    exact isJsonNumber_frac c _ f fr hc (fun x hx => hr x (List.mem_of_mem_take hx))
+      (fun e => absurd e hc0) (hmem f (by simp)) (fun x hx => hmem x (by simp [hx]))
+  · rw [if_neg hlt]
+    unfold fmtNoInt
+    obtain ⟨c, r, hn, hc, hr, -⟩ := natStr_shape n
+    rw [hn] at hlt ⊢
+    simp only [List.length_cons] at hlt
+    have h1 : ¬ sc ≤ sc - (r.length + 1) := by omega
+    have h2 : ¬ sc - (sc - (r.length + 1)) < r.length + 1 := by omega
+    simp only [List.length_cons, h1, if_false, h2, ne_eq, Nat.pos_iff_ne_zero.mp hscpos, not_false_eq_true, if_true,
+      Nat.sub_self, zeros, List.replicate_zero, List.append_nil]
+    refine ⟨'0', _, rfl, by decide, ?_⟩
+    have hall : ∀ x ∈ List.replicate (sc + 2 - 0 - (r.length + 1) - 2) '0' ++ c :: r, isDigit x = true := by
+      intro x hx
+      rcases List.mem_append.mp hx with hx | hx
+      · have : x = '0' := (List.mem_replicate.mp hx).2
+        subst this; decide
+      · rcases List.mem_cons.mp hx with hx | hx
+        · subst hx; exact hc
+        · exact hr x hx
+    have hne : List.replicate (sc + 2 - 0 - (r.length + 1) - 2) '0' ++ c :: r ≠ [] := by simp
+    obtain ⟨f, fr, hfe⟩ := List.exists_cons_of_ne_nil hne
+    have := isJsonNumber_frac '0' [] f fr (by decide) (by simp) (fun _ => rfl)
+      (by apply hall; rw [hfe]; simp) (fun x hx => by apply hall; rw [hfe]; simp [hx])
+    rw [← hfe] at this
+    simpa using this
+
+/-- **every** text the JSON-number adapter emits is inside serde_json's number grammar -/
+theorem jsonNumText_grammar (cfg : Config) (npl : Nat) (d : Dec) :
+    isJsonNumber (jsonNumText cfg npl d) = true := by
+  by_cases hs : d.scale ≤ 0
+  · exact jsonNumText_grammar_int cfg npl d hs
+  · cases hnot : chooseNotation cfg d.int.natAbs d.scale none with
+    | dotless => exact jsonNumText_grammar_exp cfg npl d (Or.inl (by rw [hnot]; decide))
+    | exponential => exact jsonNumText_grammar_exp cfg npl d (Or.inl (by rw [hnot]; decide))
+    | full =>
+      unfold jsonNumText
+      have hz : ¬ (d.int = 0 ∧ d.scale < 0) := by omega
+      rw [if_neg hz]
+      unfold display
+      simp only [padIntegral_default]
+      rw [hnot]
+      simp only
+      obtain ⟨c, r, he, hc, hj⟩ := fullScaleText_frac_grammar cfg npl (decide (d.int < 0)) d.int.natAbs d.scale (by omega)
+      rw [he]
+      cases hneg : decide (d.int < 0)
+      · simpa using hj
+      · simpa [isJsonNumber_neg c r hc] using hj
+
 end BigDec
